@@ -145,6 +145,7 @@ def check_program(shard, prog, argv, node_cap=1500, alphabet=None, extra_inputs=
     if witness is None:
         if len(shard.samples) < 2 and cyc:
             shard.sample({"source": src, "argv": argv, "alphabet": alphabet, "configs": stats["configs"], "dispatches": stats["dispatches"]})
+        c_only_stage(shard, m, comp, src, argv, extra_inputs)
         return
     word, kind = witness
     if kind.endswith("overflow-cycle"):
@@ -168,6 +169,48 @@ def check_program(shard, prog, argv, node_cap=1500, alphabet=None, extra_inputs=
                           dict(replay, input=word.hex(), where=kind))
         shard.event("am_spin_not_confirmed_in_c")
         shard.notes.append("note: AM spin not confirmed by C for %r input %s" % (src[:80], word.hex()))
+    finally:
+        binary.close()
+
+
+def c_only_stage(shard, m, comp, src, argv, extra_inputs):
+    """The machine itself has no reachable spin: the emitted C must not have one either (a yield that returns without the pointer having
+    moved, a goto that re-enters its own state).  Guided inputs on which the abstract machine terminates are run through the gcc-built parser, every
+    call under alarm() and with a bound on consecutive yields from one position."""
+    yields = comp.do("YIELD_SUPPORT")
+    if not yields and not extra_inputs and common.stable_hash(src)[0] not in "0123":
+        return
+    datas = [bytes(d) for d in extra_inputs]
+    for ch in ([3, 1, 4, 1, 5, 9, 2, 6, 5, 3, 5, 8], [0] * 12, [1, 0, 2, 0, 1, 3, 0, 1, 1, 2], [7, 7, 7, 1, 7, 7, 2, 7]):
+        d = inputs.guided_input(m, ch, max_len=14)
+        if d:
+            datas.append(bytes(d))
+    ok = []
+    for d in datas[:10]:
+        try:
+            trace.am_calls(m, [d[j:j + 1] for j in range(len(d))], call_end=comp.do("EOF_SUPPORT"), indirect=comp.do("INDIRECT_START_PTR"))
+        except (am_mod.Undefined, am_mod.Spin, am_mod.Broken):
+            continue
+        if d not in ok:
+            ok.append(d)
+    if not ok:
+        return
+    replay = {"source": src, "argv": argv}
+    try:
+        binary = crun.Binary(comp, tag="c4")
+    except crun.BuildError as e:
+        raise Failure("c04:c-build-error", str(e)[-1000:], replay)
+    try:
+        for d in ok:
+            for chunks in ([d[j:j + 1] for j in range(len(d))], [d]):
+                sc = trace.script_for(chunks, call_end=comp.do("EOF_SUPPORT"), call_free=False, move=False)
+                rc, outp, err = binary.run_raw(sc, timeout=40)
+                shard.event("c_only_runs")
+                if rc == 3 or "HANG" in outp or "YIELDSPIN" in outp:
+                    what = "yields for ever without consuming" if "YIELDSPIN" in outp else "does not return"
+                    raise Failure("c04:spin:c-only:" + ("yield" if "YIELDSPIN" in outp else "call"),
+                                  "the abstract machine terminates on input %s (%s), the generated parser %s (%s)\nlast driver output:\n%s"
+                                  % (d.hex(), d, what, "byte per call" if len(chunks) > 1 else "one chunk", outp[-300:]), dict(replay, input=d.hex()))
     finally:
         binary.close()
 
@@ -233,6 +276,10 @@ def focused_program(draw):
 
 @st.composite
 def case_strategy(draw):
+    if draw(st.integers(0, 7)) == 0:
+        # an append that may overflow and a yield on one transition, often inside a loop: the yield must come with progress
+        prog, datas = draw(gen.yield_overflow_program())
+        return prog, list(prog.argv) + draw(st.sampled_from([[], ["-findirect-start-ptr"]])), datas
     if draw(st.booleans()):
         prog = draw(focused_program())
         return prog, list(prog.argv)
@@ -251,8 +298,8 @@ def worker(job):
     shard = Shard()
 
     def body(val):
-        prog, argv = val
-        check_program(shard, prog, argv, node_cap=cap)
+        prog, argv = val[0], val[1]
+        check_program(shard, prog, argv, node_cap=cap, extra_inputs=val[2][:8] if len(val) > 2 else ())
 
     common.hyp_run(shard, body, case_strategy(), n, seed, known_keys=known, stop_at=stop_at)
     return shard
